@@ -11,7 +11,7 @@
     [walk] (enumeration order).  The model (Acpi/Model.v) is the one the harness runs. *)
 From Coq Require Import NArith List.
 From FF Require Import Lib.Word Gen.Consts_device_acpi Acpi.Model Acpi.Spec
-  Acpi.BytesProofs Acpi.ProbeProofs Acpi.EnumProofs Acpi.RegProofs.
+  Acpi.BytesProofs Acpi.ProbeProofs Acpi.EnumProofs Acpi.RegProofs Acpi.AbortProofs.
 Import ListNotations.
 Local Open Scope N_scope.
 
@@ -130,3 +130,51 @@ Theorem C14_layout_constants :
   acpi_sizeof_SDTHeader = 36 /\ acpi_off_SDT_Length = 4 /\ acpi_fadtSignature = FACP.
 Proof. exact layout_constants. Qed.
 Print Assumptions C14_layout_constants.
+
+(** A mapping-seam failure aborts DriverInit with that error (whatever the failure pattern [fail]):
+    the last identityMapFn call made is the first one that failed — nothing is mapped or visited
+    after it — printTableInfo is not reached, and either the failure hit the root table (nothing
+    registered, nothing reported) or it hit entry t of the root table (extra = []) or the DSDT of the
+    checksum-valid FADT t (extra = [(FACP, t)]): the entries before t were walked exactly as in a
+    successful enumeration, their registrations and reports stay as [walk] on that prefix says. *)
+Theorem C14_map_error_aborts :
+  forall (m : mem) (fail : N -> bool) (root : N) (useXSDT : bool) (s : state) (info : list event),
+    bytes_ok m -> root < two64 ->
+    driverInit m fail root useXSDT = (s, IErrMap, info) ->
+    info = [] /\ seam_failed fail (st_seam s) /\
+    ( (st_tmap s = [] /\ st_events s = [])
+      \/
+      exists len rootRev es pre t post vs ev regs extra,
+        tbl_len m root len /\ sums_to_zero m root len /\ m (w64 (root + 8)) = Some rootRev /\
+        (36 <= len -> root_lists m root len useXSDT es) /\
+        es = pre ++ t :: post /\ walk m rootRev pre vs ev regs /\ aborted_at m rootRev t extra /\
+        st_events s = List.rev ev /\ st_tmap s = List.rev (regs ++ extra) ).
+Proof. exact driverInit_map_error. Qed.
+Print Assumptions C14_map_error_aborts.
+
+(** Conversely a successful enumeration made no identityMapFn call that failed. *)
+Theorem C14_success_no_seam_failure :
+  forall (m : mem) (fail : N -> bool) (root : N) (useXSDT : bool) (s : state),
+    bytes_ok m -> root < two64 ->
+    enumerateTables m fail root useXSDT = (s, IOk) -> seam_ok fail (st_seam s).
+Proof. exact success_no_seam_failure. Qed.
+Print Assumptions C14_success_no_seam_failure.
+
+(** The reports: after a successful DriverInit the checksum-mismatch events are, in enumeration
+    order, exactly one per visited table whose bytes do not sum to 0 — the listed tables in the
+    root table's order, the DSDT directly after its checksum-valid FADT ([visits]) — each carrying
+    that table's signature, address and length field, as the log line
+    "<sig> at 0x<addr> <len> [checksum mismatch; skipping]" does; tables that sum to 0 produce none
+    ([reports]); both lists are determined by the image. *)
+Theorem C14_reports_in_order :
+  forall (m : mem) (fail : N -> bool) (root : N) (useXSDT : bool) (s : state) (info : list event),
+    bytes_ok m -> root < two64 -> no_seam_failure fail ->
+    driverInit m fail root useXSDT = (s, IOk, info) ->
+    exists rootRev es vs ev,
+      m (w64 (root + 8)) = Some rootRev /\
+      (forall len, tbl_len m root len -> 36 <= len -> root_lists m root len useXSDT es) /\
+      visits m rootRev es vs /\ reports m vs ev /\ st_events s = List.rev ev /\
+      (forall vs', visits m rootRev es vs' -> vs' = vs) /\
+      (forall ev', reports m vs ev' -> ev' = ev).
+Proof. exact reports_in_order. Qed.
+Print Assumptions C14_reports_in_order.
